@@ -596,3 +596,7 @@ package nitro
 //@ atomic 1 ghost if ret == 0 then s.retired := true
 //@ atomic 1 assert[retire-once] ret == 0 ==> !old(s.retired)
 //@ atomic 1 assert[nonneg] ret >= 0
+
+//@ func verifYield
+//@ trusted test-only scheduling hook (no-op without the verif tag; with it, calls a test-installed function that only blocks)
+//@ pure-call
